@@ -54,6 +54,10 @@ def close_points(ksweep=(0, 1, 2, 3, 5, 8, 12)):
     for who, t in (('same', 'A'), ('other', 'B')):
         add('running-open-prompt', who, START + RUN_A + [['call', t, 'close'], settle(0.5, 4.0), ['sample']],
             config={'answer': None}, expect_complete=False)
+    # leaving the async-with block (close() under the object's timeout_on_exit) while the script is busy for longer than the timeout
+    add('running-busy-aexit-timeout', 'other', START + RUN_A + [['call', 'B', 'aexit'], ['sleep', 1.7], ['sample'], ['child', 'return'], settle(0.6),
+                                                                ['call', 'C', 'close'], settle(0.4), ['sample']],
+        config={'timeout_on_exit': 1.0}, expect_complete=False)
     # finishing: the run's completion transition is held at each of its hooks
     for hook in ('on_end_run', 'on_finished', 'on_change_state'):
         for who, t in (('same', 'A'), ('other', 'B')):
@@ -290,6 +294,19 @@ def display():
                  ['call', 'B', 'reset', {'statement': 'C'}], settle(0.2), ['peek'], ['release_all'], settle(0.3), ['peek']] + \
                 one_run('C') + [['peek'], ['call', 'C', 'reset', {'statement': 'D'}], settle(), ['peek']] + one_run('C') + [['sample']]
             out.append(S(steps, dict(family='display', gate=hook, frm=frm)))
+    return out
+
+
+def cancelled_resets():
+    """the task awaiting reset() is cancelled while the reset is suspended in a (slow) hook of a user plugin: the request
+    either takes full effect or is refused -- it must not return normally half applied (C14)"""
+    out = []
+    for hook in ('reset', 'on_change_script', 'on_initialize_run'):
+        for frm in ('initialized', 'finished'):
+            steps = START + (one_run() if frm == 'finished' else []) + [['peek'], ['hold', hook],
+                     ['call', 'A', 'reset', {'statement': 'B', 'run_no_start_from': 7}], settle(0.3), ['cancel_task', 'A'], settle(0.3), ['peek'],
+                     ['release_all'], ['unhold', hook], settle(0.3), ['peek']] + one_run('C') + [['sample']]
+            out.append(S(steps, dict(family='cancelled-reset', gate=hook, frm=frm, expect_complete=False)))
     return out
 
 
